@@ -31,6 +31,12 @@ def plan(tier, seed):
         for sit in (2, 3, 4, 5):
             parts.append(Part(H, "crash", {"cls": c, "sit": sit}, 600, 60,
                               "death at any mutating primitive: committed files byte-identical and open alone with the committed view; full set: fails / uncommitted patch recognisable / fully committed new state"))
+    # recovery attempts after a crash (opening a strict prefix of the chain writable, reopening, discarding)
+    # never delete or modify committed containers (frame oracle of C02 on the relevant action sequences)
+    for c in ("ih5", "mf"):
+        for first in (18, 1, 2):
+            parts.append(Part("vt.harness.rec", "frames", {"cls": c, "k": 2, "first": first}, 600, 120,
+                              "recovery attempts leave every committed container byte-identical"))
     # recognisability: an uncommitted container is tolerated only as the newest one and a stored hash
     # always has to verify (chain harness of C04; these are the clauses a crash-left file set relies on)
     import itertools
@@ -46,6 +52,9 @@ def confirm(part, kwargs, native):
     if part.module.endswith("c04"):
         from vt.props import c04
         return c04.confirm(part, kwargs, native)
+    if part.module.endswith("rec"):
+        from vt import recreplay
+        return recreplay.confirm(part, kwargs, native)
     if part.func == "torn":
         p2 = Part(H, part.func, dict(part.sel, realfs=1))
         r = replay_native(p2, repr(kwargs))
